@@ -242,6 +242,15 @@ class FuncTranslator:
             if not isinstance(idx, int) or not (-len(bty[1]) <= idx < len(bty[1])):
                 self.refuse(node, 'index into a constant list')
             return lean_int(bty[1][idx]), 'Int'
+        if isinstance(bty, tuple) and bty[0] == 'Tuple':
+            idx = self.const_fold(sl)
+            n = len(bty[1])
+            if not isinstance(idx, int) or not (0 <= idx < n):
+                self.refuse(node, 'index into a tuple')
+            self.need(base, node)
+            # components of a Lean product a × b × c : .1, .2.1, .2.2
+            proj = '.2' * idx + ('.1' if idx < n - 1 else '')
+            return f'{base}{proj}', bty[1][idx]
         self.need(base, node)
         if bty == 'Atom':
             idx = self.const_fold(sl)
@@ -982,17 +991,25 @@ def gen_str():
     do(base, 'pdb2sql_base.data2pdb', 'data2pdb_line', [('d', 'Atom')], 'Str', body_fn=data2pdb_body, known=known,
        doc='body of the loop of `pdb2sql_base.data2pdb`: one row ↦ one PDB line')
 
-    # zone writer: f.write('zone %s%d-%s%d\n' % (chain, num, chain, num)) in _write_zone
+    # zone writer: the body of the loop `for res in data_test:` of _write_zone up to the f.write(...) call, whose argument is returned
     def zone_write_body(fnode):
-        for n in ast.walk(fnode):
-            if isinstance(n, ast.Call) and isinstance(n.func, ast.Attribute) and n.func.attr == 'write' \
-                    and len(n.args) == 1 and isinstance(n.args[0], ast.BinOp) and isinstance(n.args[0].op, ast.Mod):
-                ret = ast.Return(value=n.args[0])
-                ast.copy_location(ret, n); ast.fix_missing_locations(ret)
-                return [ret]
-        raise Refuse(fnode.name, 'zone line format not found')
-    do(ss, 'StructureSimilarity._write_zone', 'zone_line', [('chain', 'Str'), ('num', 'Int')], 'Str',
-       body_fn=zone_write_body, doc='the line `StructureSimilarity._write_zone` writes for one residue')
+        for loop in ast.walk(fnode):
+            if isinstance(loop, ast.For) and isinstance(loop.target, ast.Name) and loop.target.id == 'res':
+                body = []
+                for st in loop.body:
+                    if isinstance(st, ast.Expr) and isinstance(st.value, ast.Call) and isinstance(st.value.func, ast.Attribute) \
+                            and st.value.func.attr == 'write' and len(st.value.args) == 1:
+                        ret = ast.Return(value=st.value.args[0])
+                        ast.copy_location(ret, st); ast.fix_missing_locations(ret)
+                        if st is not loop.body[-1]:
+                            raise Refuse(fnode.name, 'statements after the write in the zone loop')
+                        return body + [ret]
+                    body.append(st)
+        raise Refuse(fnode.name, 'zone line loop not found')
+    do(ss, 'StructureSimilarity._write_zone', 'zone_line_of', [('res', ('Tuple', ['Str', 'Int']))], 'Str',
+       body_fn=zone_write_body, doc='body of the loop of `StructureSimilarity._write_zone`: one residue (chain, number) ↦ the line written')
+    out.append(unit('zone_line', '/-- the line `_write_zone` writes for the residue `(chain, num)` -/\n'
+                                 'def zone_line (chain : Py.Str) (num : Int) : Except Py.Err Py.Str := zone_line_of (chain, num)\n'))
 
     # zone reader: body of the loop of read_zone up to the dictionary update
     def read_zone_body(fnode):
